@@ -26,8 +26,13 @@ def files(sub: str = "tests") -> list[str]:
     return sorted(out)
 
 
+EXTRA_DIR = os.path.join(os.path.dirname(os.path.abspath(__file__)), "extra_corpus")
+EXTRA_PREFIX = "verif-extra/"
+
+
 def chunks_of(rel: str) -> list[str]:
-    with open(os.path.join(CORPUS_ROOT, rel), encoding="utf-8", errors="replace") as f:
+    path = os.path.join(EXTRA_DIR, rel[len(EXTRA_PREFIX):]) if rel.startswith(EXTRA_PREFIX) else os.path.join(CORPUS_ROOT, rel)
+    with open(path, encoding="utf-8", errors="replace") as f:
         text = f.read()
     parts, cur = [], []
     for line in text.split("\n"):
@@ -44,6 +49,14 @@ def chunks(sub: str = "tests") -> Iterator[tuple[str, int, str]]:
     for rel in files(sub):
         for i, c in enumerate(chunks_of(rel)):
             yield rel, i, c
+
+
+def extra_chunks() -> Iterator[tuple[str, int, str]]:
+    """hand-written valid modules (generic form) with shapes the in-tree tests never contain; every chunk must parse and verify"""
+    for f in sorted(os.listdir(EXTRA_DIR)):
+        if f.endswith(".mlir"):
+            for i, c in enumerate(chunks_of(EXTRA_PREFIX + f)):
+                yield EXTRA_PREFIX + f, i, c
 
 
 _DIALECTS = None
